@@ -158,4 +158,17 @@ def WeaC.wfDisc (w : WeaC) : Prop :=
     w.ap.len = l.length ∧ w.dni.length = l.length ∧ w.dhi.length = l.length) ∧
   (∀ v ∈ w.dni, jsonRT v = v) ∧ (∀ v ∈ w.dhi, jsonRT v = v)
 
+/-- Round 5.  Normal form of a Wea handed two *unflagged discontinuous collections over the whole year*
+    whose steps are in ANY order (December before January, the order `filter_by_hoys` was given, descending …)
+    and do not fill the period spanned by the first and the last of them (`sp`): the reader's fallback
+    branch.  No condition relates the order of the steps to the calendar. -/
+def WeaC.wfScattered (w : WeaC) : Prop :=
+  w.loc.wf ∧ w.ap = AP.annual w.ap.ts w.ap.leap ∧ w.ap.ts ∈ validTimesteps ∧ w.validated = false ∧
+  (∃ l first last, w.times = some l ∧ l.head? = some first ∧ l.getLast? = some last ∧
+    (∀ d ∈ l, d.valid ∧ d.leap = w.ap.leap) ∧
+    (∃ sp, AP.make (some first.month) (some first.day) (some first.hour) (some last.month)
+        (some last.day) (some last.hour) (some w.ap.ts) w.ap.leap = some sp ∧ sp.len ≠ l.length) ∧
+    w.dni.length = l.length ∧ w.dhi.length = l.length) ∧
+  (∀ v ∈ w.dni, jsonRT v = v) ∧ (∀ v ∈ w.dhi, jsonRT v = v)
+
 end Codec
